@@ -230,7 +230,7 @@ def replay(case, rec):
 
 
 def run(rec, rng, tier, shard, nshards):
-    n = 500 if tier == 'quick' else 8000
+    n = 700 if tier == 'quick' else 10000
     for i in range(n):
         case = gen_case(rng)
         try:
